@@ -43,7 +43,7 @@ def run(ctx):
             broken.append("coqchk rejects Props/%s.vo: %s" % (pid, cout[-800:]))
     if not proofs["ok"]:
         broken.append("proof obligations of Props/%s.v do not check: %s" % (pid, (proofs.get("broken_files") or proofs.get("nonstd_axioms") or proofs["log"][-800:])))
-    allcases, evaluated, mism = [], 0, 0
+    allcases, evaluated, mism, infos = [], 0, 0, []
     for h, ctype, fn, tag in ((H_INDEX, "c21case", "c21_mismatches", "i"), (H_TOTAL, "c21tcase", "c21t_mismatches", "t"),
                               (H_DEADLINE, "c21dcase", "c21d_mismatches", "d")):
         n = ctx.n(h["n_quick"], h["n_thorough"])
@@ -53,6 +53,8 @@ def run(ctx):
         for r in recs:
             if r.get("kind") == "oracle_fail":
                 failures.append(dict(key=r.get("key", "?"), what=r.get("what", ""), replay=r.get("replay")))
+            elif r.get("kind") == "info":
+                infos.append({k: v for k, v in r.items() if k != "kind"})
         if hr["rc"] != 0:
             broken.append("harness %s failed (rc=%d): %s" % (h["run"], hr["rc"], hr["log"][-1500:]))
         if cases:
@@ -79,4 +81,6 @@ def run(ctx):
     )
     if proofs.get("coqchk"):
         cov["coqchk"] = proofs["coqchk"]
+    if infos:
+        cov["info"] = infos
     return vf.finish(ctx, "proof", proofs, cov, failures=failures, broken=broken, assumptions=ASSUME)
